@@ -560,7 +560,10 @@ class Worker:
                         if z is None:
                             buffer.put(z)
                             q_in.put(z)  # broadcast to fellow workers.
-                            q_out.put(z)
+                            # Do not forward it to `q_out` here: the items still in `buffer`
+                            # are yet to be processed, and their results must not come after
+                            # the end marker. `get_input` (in `_start_batch`) forwards it
+                            # once it takes it out of `buffer`.
                             return
                         uid, x = z
 
